@@ -90,7 +90,7 @@ function canonSpec(nodes) {
         if (a.ch === 'c' || a.ch === 'y' || a.ch === 'i') o[a.ch] = val
         else {
           o[a.ch] = o[a.ch] || {}
-          if (a.ch === 'v') o.v[a.n] = { v: val, dyn: !!a.dyn }
+          if (a.ch === 'v') o.v[a.n] = MERGE ? { v: val } : { v: val, dyn: !!a.dyn }
           else o[a.ch][a.n] = val
         }
       }
@@ -112,7 +112,8 @@ function canonActual(nodes) {
     if (a) {
       for (const ch of ['r', 'd', 'm', 'wl', 'a']) if (a[ch]) o[ch] = a[ch]
       for (const ch of ['c', 'y', 'i']) if (a[ch] !== undefined) o[ch] = a[ch]
-      if (a.v) { o.v = {}; for (const k of Object.keys(a.v)) o.v[k] = { v: a.v[k].v, dyn: a.v[k].dyn } }
+      // (C14 compares modulo the isDynamic flag: `bind:x="{{ 'h' }}"` is printed as `bind:x="h"`)
+      if (a.v) { o.v = {}; for (const k of Object.keys(a.v)) o.v[k] = MERGE ? { v: a.v[k].v } : { v: a.v[k].v, dyn: a.v[k].dyn } }
       if (a.p) { o.p = {}; for (const k of Object.keys(a.p)) o.p[k] = a.p[k].v }
       if (a.l) { o.l = {}; for (const k of Object.keys(a.l)) o.l[k] = a.l[k].v }
     }
@@ -138,6 +139,20 @@ function desc(v, depth) {
   }
   return '{' + Object.keys(v).map((k) => k + ':' + desc(v[k], depth + 1)).join(',') + '}'
 }
+
+// adjacent text nodes as one (C14: the printer drops comments, so the texts they separated merge)
+function mergeTexts(nodes) {
+  const out = []
+  for (const n of nodes) {
+    const m = n.ch ? Object.assign({}, n, { ch: mergeTexts(n.ch) }) : n
+    const last = out[out.length - 1]
+    if (m.t === 'text' && m.v === '') continue       // an empty text node renders nothing
+    if (m.t === 'text' && last && last.t === 'text') out[out.length - 1] = { t: 'text', v: last.v + m.v }
+    else out.push(m)
+  }
+  return out
+}
+let MERGE = false
 
 // first difference between two canonical trees, or null
 function diff(a, b, path) {
@@ -298,6 +313,7 @@ function checkPaths(res, c, w, procGen, data) {
 
 function runCase(G, c) {
   const res = { id: c.id, ok: true, problems: [] }
+  MERGE = !!c.mergeText
   let procGen
   try {
     const group = G[c.path]
@@ -313,7 +329,7 @@ function runCase(G, c) {
   let B
   const check = (step, wrapper, specTree, data) => {
     let actual
-    try { actual = canonActual(projectRoot(wrapper)) } catch (e) {
+    try { actual = canonActual(projectRoot(wrapper)); if (MERGE) actual = mergeTexts(actual) } catch (e) {
       res.ok = false
       res.problems.push({ step, what: 'projection failed', msg: String(e && e.stack || e) })
       return
@@ -321,7 +337,7 @@ function runCase(G, c) {
     if (specTree !== undefined && specTree !== null) {
       let want
       let noref = false
-      try { want = canonSpec(specTree) } catch (e) {
+      try { want = canonSpec(specTree); if (MERGE) want = mergeTexts(want) } catch (e) {
         if (e && e.noref) { noref = true; res.noref = (res.noref || 0) + 1; specTree = null } else {
           res.problems.push({ step, what: 'tool: spec tree conversion failed', msg: String(e && e.stack || e) })
           res.ok = false
@@ -338,11 +354,12 @@ function runCase(G, c) {
       try {
         const w2 = new ProcGenWrapper(procGen, opts)
         w2.create(data)
-        const fresh = canonActual(projectRoot(w2))
+        let fresh = canonActual(projectRoot(w2))
+        if (MERGE) fresh = mergeTexts(fresh)
         const d2 = diff(fresh, actual, '$')
         if (d2) { res.ok = false; res.problems.push({ step, what: 'tree differs from a fresh creation', diff: d2 }) }
         if (specTree !== undefined && specTree !== null) {
-          const d3 = diff(canonSpec(specTree), fresh, '$')
+          const d3 = diff(MERGE ? mergeTexts(canonSpec(specTree)) : canonSpec(specTree), fresh, '$')
           if (d3) res.problems.push({ step, what: 'ORACLES-DISAGREE: fresh creation differs from the specification', diff: d3 })
         }
       } catch (e) {
@@ -398,6 +415,50 @@ function runCase(G, c) {
   return res
 }
 
+
+// ---- pair mode (C14): two templates must behave identically on the same data ------------------
+function runPair(G, c) {
+  const res = { id: c.id, ok: true, problems: [], pair: true }
+  MERGE = true
+  const gens = []
+  for (const p of c.pair) {
+    try {
+      const group = G[p]
+      if (typeof group !== 'function') throw new Error('no group for ' + p)
+      gens.push(group(''))
+    } catch (e) {
+      res.problems.push({ step: -1, what: 'tool: no generator', msg: String(e) })
+      res.ok = false
+      return res
+    }
+  }
+  const ws = []
+  const trees = []
+  for (let k = 0; k < 2; k += 1) {
+    try {
+      const w = new ProcGenWrapper(gens[k])
+      w.create(c.datas[0])
+      ws.push(w)
+      trees.push(mergeTexts(canonActual(projectRoot(w))))
+    } catch (e) {
+      ws.push(null)
+      trees.push({ threw: e && e.constructor ? e.constructor.name : 'Error' })
+    }
+  }
+  let d = diff(trees[0], trees[1], '$')
+  if (d) { res.ok = false; res.problems.push({ step: -1, what: 're-printed template renders differently', diff: d, data: 0 }) }
+  if (!ws[0] || !ws[1]) return res
+  for (let i = 1; i < c.datas.length; i += 1) {
+    const t2 = []
+    for (let k = 0; k < 2; k += 1) {
+      try { ws[k].update(c.datas[i], true); t2.push(mergeTexts(canonActual(projectRoot(ws[k])))) } catch (e) { t2.push({ threw: e && e.constructor ? e.constructor.name : 'Error' }) }
+    }
+    d = diff(t2[0], t2[1], '$')
+    if (d) { res.ok = false; res.problems.push({ step: i - 1, what: 're-printed template updates differently', diff: d, data: i }); break }
+  }
+  return res
+}
+
 const rl = readline.createInterface({ input: process.stdin, crlfDelay: Infinity })
 rl.on('line', (line) => {
   if (!line.trim()) return
@@ -417,6 +478,6 @@ rl.on('line', (line) => {
     process.stdout.write(JSON.stringify(out) + '\n')
     return
   }
-  for (const c of job.cases) out.results.push(runCase(G, c))
+  for (const c of job.cases) out.results.push(c.pair ? runPair(G, c) : runCase(G, c))
   process.stdout.write(JSON.stringify(out) + '\n')
 })
